@@ -1,5 +1,5 @@
 /-
-The proposed repair of finding F15 (`Cfg.fixTrim`: the Poll trim visits the whole pinned region):
+The fix of finding F15 (`Cfg.fixTrim`, the default: the Poll trim visits the whole pinned region):
 every entry of the pinned region is currently pinned or was released since the last maintenance
 round, hence resident ≤ capacity + currently pinned + one batch + releases since the last round.
 -/
